@@ -310,9 +310,13 @@ CHECKS = {
                  "ms, election 5 ticks, snapshot count 3/5/20, batch size 1-3) wired through a harness OrderPeerManager whose "
                  "AsyncSend/Broadcast consult a rapid-drawn fault script (deliver/drop/duplicate/delay per message ordinal), "
                  "per-replica executor stubs with drawn lag, crash (Stop, executor queue dropped, storage released) and restart of a "
-                 "drawn replica with WithApplied(its executed height), block fetch served from the other replicas' stubs. Oracle "
+                 "drawn replica with WithApplied(its executed height), block fetch served from the other replicas' stubs; leader-crash "
+                 "episodes (the replica that accepted the transactions goes down 5-120 ms later); cases without crashes have "
+                 "executors taking 15-150 ms per block and partition episodes (a follower cut off while the others order more than "
+                 "twice the snapshot count of blocks, reconnected while its executor is busy). Oracle "
                  "(b,c): each replica's consumed heights are last-executed+1 (also across restarts), a height delivered on two "
-                 "replicas has identical transaction list and timestamp, a transaction hash is in at most one height. Non-trivial "
+                 "replicas has identical transaction list and timestamp, a transaction hash is in at most one height, a replica that crashed with delivered but unexecuted blocks "
+                 "executes them after the restart. Non-trivial "
                  "= sync span >= 2; solo/raft run with >=1 restart and >=3 delivered blocks; distinct = hash of the run's script "
                  "and observed delivery history."),
         "assumptions": ["goroutine and timer interleavings are not owned by the harness; a raft/solo failure is reported with the fault script and the observed per-replica delivery history, it may not replay bit for bit",
